@@ -467,3 +467,33 @@ Example c18_graphml_nonvacuous :
     b_node_attr b = Some [("color"%string, (PStr, [VStr "green"; VStr "yellow"; VStr "yellow"]))] /\
     option_map (map (fun c : string * (ptype * list value) => (fst c, length (snd (snd c))))) (b_edge_attr b) = Some [("len"%string, 9)].
 Proof. exact graphml_example. Qed.
+
+(** ** Attribute columns: which key decides, and the fill ("defaults filled") *)
+From SKN Require Import Proofs.GraphmlColumnsProofs.
+Set Warnings "-notation-overridden".
+
+(** The column of node (edge) attribute [name] is decided by the LAST key of that domain carrying the
+    name (other than the weight key): its attr.type, and as fill the cast of its last <default> child
+    when that is truthy, else zero / False / the empty string. With no key of a domain the Bunch has no
+    node_attribute (edge_attribute) entry. *)
+Theorem graphml_column_rule (dl : dialect) (wk : string) (mss : nat) (root : xml) (pre : list xml) (fe : xml)
+        (post : list xml) (name : string) :
+  x_children root = (pre ++ fe :: post)%list ->
+  (feeds dl wk "node" name fe = true -> (forall fe', In fe' post -> feeds dl wk "node" name fe' = false) ->
+   alookup name (some_or_empty (k_nattr (doc_keys dl wk mss root)))
+   = Some (key_type fe, fill_of mss (key_type fe) (last_default dl (key_type fe) (x_children fe) None))) /\
+  (feeds dl wk "edge" name fe = true -> (forall fe', In fe' post -> feeds dl wk "edge" name fe' = false) ->
+   alookup name (some_or_empty (k_eattr (doc_keys dl wk mss root)))
+   = Some (key_type fe, fill_of mss (key_type fe) (last_default dl (key_type fe) (x_children fe) None))).
+Proof.
+  exact (fun H => conj (node_column_rule dl wk mss root pre fe post name H) (edge_column_rule dl wk mss root pre fe post name H)).
+Qed.
+Print Assumptions graphml_column_rule.
+
+Theorem graphml_no_column (dl : dialect) (wk : string) (mss : nat) (root : xml) :
+  ((forall fe name, In fe (x_children root) -> feeds dl wk "node" name fe = false) ->
+   k_nattr (doc_keys dl wk mss root) = None) /\
+  ((forall fe name, In fe (x_children root) -> feeds dl wk "edge" name fe = false) ->
+   k_eattr (doc_keys dl wk mss root) = None).
+Proof. exact (conj (no_column_rule_node dl wk mss root) (no_column_rule_edge dl wk mss root)). Qed.
+Print Assumptions graphml_no_column.
